@@ -14,6 +14,7 @@ pub mod c05;
 pub mod c06;
 pub mod c07;
 pub mod rules;
+pub mod c08;
 pub mod c09;
 pub mod c10;
 pub mod lsp;
